@@ -438,6 +438,8 @@ func runC08(args []string) int {
 
 	// ---------------- (2) oracle on the real binary
 	c08Binary(r, rep, cwd, n)
+	// ---------------- (3) oracle on the real binary, paired runs over random base configurations (c08_pairs.go)
+	c08Pairs(rand.New(rand.NewSource(seed*7919+8)), rep, cwd, n)
 
 	rep.write(filepath.Join(cwd, "report.json"))
 	return 0
